@@ -1365,6 +1365,8 @@ mut("queue-pop-retires-tail", "break", ["C17"], "pop never advances the tail bef
                     .map_err(|_| ())
             },
             None => Ok(None),""")], ["EBR-QUEUE"])
+mut("cw-weak-upgrade-never", "break", ["C05"], "Weak::upgrade's `if obj.try_increment_strong()` is `if false` (mutation sweep M1105): upgrade never succeeds",
+    [ed(W, "        if obj.try_increment_strong() {", "        if false {")], ["CW-INC-FAIL-ON-DESTRUCTED"])
 mut("wrap-atomicepoch-cas-always-ok", "break", ["C13", "C14"], "AtomicEpoch::compare_exchange reports Ok on failure",
     [ed(EPF, "Err(data) => Err(Epoch { data }),", "Err(data) => Ok(Epoch { data }),")], ["WRAP-ATOMICS"])
 mut("wrap-defer-none-runs-now", "break", ["C01", "C02", "C13"], "Option<&Guard>::defer_with_inner runs f at once when no guard is given",
